@@ -34,16 +34,16 @@ def main():
             print("patch does not apply:", out); return 2
         rc, out = sh("cd /repo && /venv/bin/python -m pytest -q -p no:cacheprovider --timeout=900 --continue-on-collection-errors 2>&1 | tail -1")
         result["tests_with_change"] = out.strip()
-        rc, out = sh(f"cd {d} && PYTHONPATH=/repo /venv/bin/python demo.py 2>&1 | tail -3")
+        rc, out = sh(f"cd {d} && PYTHONPATH=/repo /venv/bin/python demo.py 2>&1")
         result["demo_with_change"] = {"exit": rc, "tail": out.strip()[-300:]}
         for c in checks:
             t = time.time()
-            rc, out = sh(f"cd {VERIF} && VERIF_SEED=1 /venv/bin/python harness/run_check.py {c} --tier {tier} 2>&1 | tail -6", timeout=3600)
+            rc, out = sh(f"cd {VERIF} && VERIF_SEED=1 /venv/bin/python harness/run_check.py {c} --tier {tier} 2>&1", timeout=3600)
             lines = [l for l in out.splitlines() if l.startswith("VIOLATION") or l.startswith("OK ") or l.startswith("INFRA") or l.startswith("  {") or l.startswith("  broken") or l.startswith("  mismatch")]
             result["checks"][c] = {"exit": rc, "wall_s": round(time.time() - t, 1), "lines": [l[:400] for l in lines[:4]]}
     finally:
         sh("git -C /repo checkout -- . && git -C /repo clean -fdq -- jsonpath_rfc9535")
-    rc, out = sh(f"cd {d} && PYTHONPATH=/repo /venv/bin/python demo.py 2>&1 | tail -2")
+    rc, out = sh(f"cd {d} && PYTHONPATH=/repo /venv/bin/python demo.py 2>&1")
     result["demo_without_change"] = {"exit": rc, "tail": out.strip()[-200:]}
     meta["evaluation"] = result
     json.dump(meta, open(os.path.join(d, "meta.json"), "w"), indent=1)
